@@ -140,6 +140,7 @@ func (it *Interp) doCall(g *G, fr *Frame, ins ssa.Instruction, c *ssa.CallCommon
 	case callGo:
 		it.spawn(fv, args)
 		fr.pc++
+		it.visible(g)
 		return stOK
 	}
 	it.pushFrame(g, fv.fn, args, fv.free, site)
@@ -336,6 +337,7 @@ func (it *Interp) builtinOp(g *G, fr *Frame, name string, args []Value, c *ssa.C
 			return nil, "close of closed channel", nil
 		}
 		it.chanClose(ch.c)
+		it.visible(g)
 	case "panic":
 		pv, _ := args[0].(*Iface)
 		if isNilValue(pv) {
